@@ -532,6 +532,18 @@ func vc20ValueString(v any) (s string) {
 			return "[]"
 		}
 
+		// Objects with names are told apart by them.
+		var names []string
+		for _, el := range v {
+			if name, ok := vc20Get(el, []any{"name"}); ok {
+				names = append(names, fmt.Sprint(name))
+			}
+		}
+
+		if len(names) > 0 {
+			return fmt.Sprintf("[%d elements: %s]", len(v), strings.Join(names, " "))
+		}
+
 		return fmt.Sprintf("[%d elements]", len(v))
 	default:
 		return fmt.Sprint(v)
